@@ -371,12 +371,7 @@ func (p *Parser) parseAmount() *ast.Amount {
 	if sign == "-" && !strings.HasPrefix(rawNumberStr, "-") {
 		rawNumberStr = "-" + rawNumberStr
 	}
-	numberStr := rawNumberStr
-
-	numberStr = strings.ReplaceAll(numberStr, " ", "")
-	numberStr = normalizeNumber(numberStr)
-
-	qty, err := decimal.NewFromString(numberStr)
+	qty, err := ParseQuantity(rawNumberStr)
 	if err != nil {
 		p.error("invalid number: %s", p.current.Value)
 		return nil
@@ -905,9 +900,19 @@ func toASTPosition(pos Position) ast.Position {
 // ParseQuantity reads a number the way amounts are read: blanks used as digit group marks are
 // dropped and decimal and group marks are told apart.
 func ParseQuantity(number string) (decimal.Decimal, error) {
-	number = strings.ReplaceAll(number, " ", "")
-	return decimal.NewFromString(normalizeNumber(number))
+	number = normalizeNumber(strings.ReplaceAll(number, " ", ""))
+	if i := strings.IndexAny(number, "eE"); i > 0 {
+		if exp, err := strconv.Atoi(number[i+1:]); err != nil || exp > maxExponent || exp < -maxExponent {
+			return decimal.Decimal{}, fmt.Errorf("exponent out of range: %s", number[i+1:])
+		}
+	}
+	return decimal.NewFromString(number)
 }
+
+// maxExponent bounds the exponent of a number in scientific notation. hledger keeps at most 255
+// decimal places; a larger exponent is never a real amount and summing it materialises a
+// number with that many digits.
+const maxExponent = 255
 
 func normalizeNumber(s string) string {
 	// only the mantissa carries decimal and group marks; keep the exponent as written
